@@ -604,6 +604,43 @@ func (s *c16Scn) restoreRaw(n *c16Node, alive [8]bool, fc, tc [8]int) {
 		[]*c16Node{n})
 }
 
+// the real CaptureReloadSelectionFallback (SelectWithExclusionResult -> _select -> GetMinLatency, data-UDP
+// fallback chain, other IP family, single-member rule); for a latency policy the answer is determined and
+// compared with Model.captureFallback
+func (s *c16Scn) capture(g *c16Group) outbound.ReloadSelectionFallback {
+	fb := g.g.CaptureReloadSelectionFallback()
+	if strings.HasPrefix(g.pol, "min_") {
+		var toks []string
+		for i := 2; i < 8; i++ {
+			if fb[i] != nil {
+				toks = append(toks, fmt.Sprintf("%d:%d", i, s.idOf(fb[i])))
+			}
+		}
+		if fb[0] != nil || fb[1] != nil {
+			toks = append(toks, "unexpected-index")
+		}
+		s.st.Emit(fmt.Sprintf("capture %d", g.id), "F["+strings.Join(toks, ",")+"]")
+		s.stats.Inc("capture")
+		first := -1
+		if len(g.members) > 0 {
+			first = g.members[0].id
+		}
+		for i := 2; i < 8; i++ {
+			if fb[i] != nil && s.idOf(fb[i]) != first {
+				s.stats.Inc("capture.not_first_member")
+				break
+			}
+		}
+		for i := 2; i < 8; i++ {
+			if fb[i] == nil {
+				s.stats.Inc("capture.none_for_some_type")
+				break
+			}
+		}
+	}
+	return fb
+}
+
 func (s *c16Scn) floor(g *c16Group, fb outbound.ReloadSelectionFallback) {
 	var toks []string
 	for i := 0; i < 8; i++ {
@@ -922,14 +959,18 @@ func (s *c16Scn) genRandomEvent() {
 		if len(s.groups) > 0 {
 			g := s.groups[s.r.Intn(len(s.groups))]
 			var fb outbound.ReloadSelectionFallback
-			if len(g.members) > 0 {
+			if s.r.Chance(0.4) {
+				fb = s.capture(g) // the group's own choice in whatever state it is in
+			} else if len(g.members) > 0 {
 				for i := 2; i < 8; i++ {
 					if s.r.Chance(0.5) {
 						fb[i] = g.members[s.r.Intn(len(g.members))].d
 					}
 				}
 			}
-			s.floor(g, fb)
+			if s.r.Chance(0.8) {
+				s.floor(g, fb)
+			}
 		}
 	}
 }
@@ -1006,7 +1047,7 @@ func (s *c16Scn) genReload() {
 		}
 		tol := []time.Duration{0, time.Millisecond}[s.r.Intn(2)]
 		ng := s.addGroup(og.pol, tol, ms, offs)
-		pends = append(pends, pend{ng, ng.g.CaptureReloadSelectionFallback(), og})
+		pends = append(pends, pend{ng, s.capture(ng), og})
 	}
 	// the order of InheritDialerHealthFrom (fix a4cd600): all fallbacks are captured above while every
 	// new node is fresh, then every matched dialer of every group is restored, then every group floored.
@@ -1075,6 +1116,9 @@ func (s *c16Scn) runScenario(maxEv int) {
 			}
 		default:
 			s.genRandomEvent()
+		}
+		if len(s.groups) > 0 && s.r.Chance(0.12) {
+			s.capture(s.groups[s.r.Intn(len(s.groups))])
 		}
 	}
 }
